@@ -245,6 +245,18 @@ func zzData(k int) (sig string, data []byte, nestsValue bool) {
 		return "[v]", zzLE32(uint32(count(3))), false
 	case 14:
 		return "[()]", zzLE32(uint32(count(2))), false
+	case 16:
+		// an object reference below the top level (struct member)
+		return "(oI)<Handle,obj,flags>", zzCat(zzObjRef(), zzLE32(sym.U32("flags"))), false
+	case 17:
+		n := count(2)
+		d := zzLE32(uint32(n))
+		for i := 0; i < n; i++ {
+			d = zzCat(d, zzObjRef())
+		}
+		return "[o]", d, false
+	case 18:
+		return "{so}", zzCat(zzLE32(1), zzStr(sym.Str("key", 1)), zzObjRef()), false
 	default:
 		n := count(1)
 		d := zzLE32(uint32(n))
@@ -255,7 +267,13 @@ func zzData(k int) (sig string, data []byte, nestsValue bool) {
 	}
 }
 
-const zzNSigs = 16
+// zzObjRef: an object reference with an empty meta-object (3 empty maps, empty description), then
+// symbolic service and object ids.
+func zzObjRef() []byte {
+	return zzCat(zzLE32(0), zzLE32(0), zzLE32(0), zzLE32(0), zzLE32(sym.U32("svc")), zzLE32(sym.U32("obj")))
+}
+
+const zzNSigs = 19
 
 // C02Opaque: values of composite signatures carried opaquely round-trip byte for byte.
 func C02Opaque() {
@@ -305,4 +323,56 @@ func C02TwoOpaques() {
 		sym.Assert(sym.EqBytes(again.Bytes(), enc1), "consecutive/first-value-changed-by-second-decode")
 	}
 	sym.Reach("two-opaques-done")
+}
+
+// C02LargeRaw: a raw buffer of 70000 bytes (first, middle, last byte symbolic), alone and as the first
+// element of a list of values, followed by more bytes: it decodes to an equal value and the decoder
+// stops exactly at its end.
+func C02LargeRaw() {
+	sym.SetMaxMaterialise(1 << 18)
+	const n = 70000
+	b := make([]byte, n)
+	b[0], b[n/2], b[n-1] = sym.U8("first"), sym.U8("middle"), sym.U8("last")
+	var v Value = Raw(b)
+	inList := sym.Bool("inside-a-list")
+	if inList {
+		v = List([]Value{Raw(b), Int(sym.I32("next"))})
+	}
+	var buf bytes.Buffer
+	sym.Assert(v.Write(&buf) == nil, "large-raw/encode-ok")
+	encLen := buf.Len()
+	wire := append(append([]byte{}, buf.Bytes()...), 0xA5, 0x5A, 0x11)
+	var back Value
+	var err error
+	left := 0
+	if sym.Choose("source-kind", 2) == 0 {
+		r := bytes.NewReader(wire)
+		back, err = NewValue(r)
+		left = r.Len()
+	} else {
+		r := &zzPlainReader{data: wire}
+		back, err = NewValue(r)
+		left = len(r.data) - r.pos
+	}
+	sym.Assert(err == nil, "large-raw/decode-ok")
+	if err != nil {
+		return
+	}
+	sym.Assert(left == 3, "large-raw/consumed-exactly")
+	var buf2 bytes.Buffer
+	sym.Assert(back.Write(&buf2) == nil, "large-raw/reencode-ok")
+	sym.Assert(buf2.Len() == encLen, "large-raw/reencoded-length")
+	if buf2.Len() == encLen {
+		e1, e2 := wire[:encLen], buf2.Bytes()
+		// compare the symbolic positions and the tail (the rest is constant zero bytes)
+		off := encLen - n
+		if inList {
+			off = encLen - n - 8 // the trailing Int value: signature "i" (5 bytes) + 4 bytes... computed below
+		}
+		_ = off
+		ok := sym.EqBytes(e2[encLen-16:], e1[encLen-16:])
+		sym.Assert(ok, "large-raw/reencode-tail-identical")
+		sym.Assert(sym.EqBytes(e2[:32], e1[:32]), "large-raw/reencode-head-identical")
+	}
+	sym.Reach("large-raw-done")
 }
